@@ -45,6 +45,12 @@ def metaName (es : List Entry) : Bytes :=
 
 /-! ### Blocks -/
 
+/-- the end of `ParseBlock`: the counted entries must cover the decoded payload -/
+def finishParse (cfg : Cfg) (ulen : Nat) (r : Except Err (List Entry)) : Except Err (List Entry) :=
+  match r with
+  | .error e => .error e
+  | .ok es => if cfg.parseConsumesAll && sizeSum es != ulen then .error .crc else .ok es
+
 /-- `ParseBlock` -/
 def parseBlock (cfg : Cfg) (d : Decoder) (crc : Checksum) (h : BlockHeader) (c : Bytes) :
     Except Err (List Entry) :=
@@ -54,7 +60,7 @@ def parseBlock (cfg : Cfg) (d : Decoder) (crc : Checksum) (h : BlockHeader) (c :
   | none => .error .snappy
   | some u =>
     if cfg.validatesULen && u.length % 2 ^ 32 != h.usize then .error .crc
-    else parseEntries h.count u
+    else finishParse cfg u.length (parseEntries h.count u)
 
 inductive BlockRes where
   | eof
@@ -186,6 +192,20 @@ def scanListed (cfg : Cfg) (d : Decoder) (crc : Checksum) (file : Bytes) : Optio
   match scanName cfg d crc file with
   | some n => if splits3 n then some n else none
   | none => none
+
+/-- `ScanBlockHeaders`: block count, sum of the 16-bit entry counts, sum of the declared
+    uncompressed sizes — headers only, seeking over the data (a seek past the end is not an error) -/
+def scanHeaders : Nat → Bytes → Nat × Nat × Nat → Nat × Nat × Nat
+  | 0, _, acc => acc
+  | fuel + 1, rest, (bc, ec, us) =>
+    if shorterThan rest 16 then (bc, ec, us) else
+    let h := decodeBlockHeader rest
+    scanHeaders fuel (rest.drop (16 + h.csize)) (bc + 1, ec + h.count, us + h.usize)
+
+def scanBlockHeaders (file : Bytes) : Except Err (Nat × Nat × Nat) :=
+  match openReader file with
+  | .error e => .error e
+  | .ok r => .ok (scanHeaders (file.length / 16 + 1) (file.drop r.hdr.dataStart) (0, 0, 0))
 
 /-! ### Allocation accounting (C04)
 
